@@ -108,7 +108,7 @@ pub fn run(run: &mut Run) {
     run.rule = "all 36 names x call histories of length 2..20 on one long-lived decoder built by build_decoder; every call is repeated on a decoder freshly built on the same H and the two results must be equal; arguments are steered by the previous outcome (failure -> tiny / limit 0, huge -> tiny magnitudes), limits from {0,1,2,5,30}, matrices include very unequal row weights (scratch vectors) and shuffled insertion order; non-trivial = history with a failure followed by a non-shortcut call, or a limit-0 call on a non-codeword after >= 1 executed iteration; distinct by history digest".into();
     let impls = crate::props::c01::all_impls();
     let ni = impls.len() as u64;
-    let per = if cfg!(miri) { 1 } else { run.tier.n(400, 20_000) };
+    let per = if cfg!(miri) { 1 } else { run.tier.n(8000, 250_000) };
     run.sub("histories", ni * per, move |l, idx, rng| {
         let im = impls[(idx % ni) as usize];
         let m = if idx % 5 == 0 {
